@@ -109,11 +109,17 @@ def run_one(q, cls, n, seed, image, train=True):
                         problems.append(f'group {g} layer {k}: dropped but loss {float(lo[k])} != 0')
     # dropped layers contribute nothing: output == decode of the returned (partly -1) indices
     try:
-        dec = q.get_output_from_indices(indices)
+        if image and cls == 'ResidualFSQ':
+            # channel-first ResidualFSQ returns indices as 'b q ...'; its decoder expects the layer axis last (layout mismatch is C02's subject)
+            dec = q.get_output_from_indices(indices.movedim(1, -1)).movedim(-1, 1)
+        elif image and cls == 'GroupedResidualVQ':
+            # grouped decode of image indices concatenates channel-last outputs on axis 1 (C02's subject): decode group by group here
+            import torch as _t
+            dec = _t.cat([r.get_output_from_indices(gi) for r, gi in zip(q.rvqs, indices)], dim=-1)
+        else:
+            dec = q.get_output_from_indices(indices)
         if dec.shape != out.shape and image and cls in ('ResidualVQ', 'GroupedResidualVQ'):
             dec = dec.movedim(-1, 1)  # decode of image indices is channel-last
-        if dec.shape != out.shape and image and cls == 'ResidualFSQ':
-            dec = None
         if dec is not None:
             err = (dec - out).abs().max().item()
             if not (err <= 1e-4):
@@ -155,9 +161,9 @@ def correspond(ctx, scale):
         r = random.Random(seed).randrange(c, n)
         for g, fl in enumerate(flags):
             if expect_drop:
-                cases.append(f'({cid}%nat, dropout_case_ok {n} {c} {m} {r} {blist(fl)})')
+                cases.append(f'({cid}, dropout_case_ok {n} {c} {m} {r} {blist(fl)})')
             else:
-                cases.append(f'({cid}%nat, nodrop_case_ok {n} {blist(fl)})')
+                cases.append(f'({cid}, nodrop_case_ok {n} {blist(fl)})')
             meta[cid] = dict(cls=cls, n=n, cutoff=c, m=m, seed=seed, image=image, train=train, expect_drop=expect_drop, group=g, observed=fl, r=r)
             cid += 1
         evaluations += 1
@@ -232,8 +238,8 @@ def correspond(ctx, scale):
             hit = sorted({random.Random(s).randrange(c, n) for s in range(10000)})
             rows.append(f'randrange_row_ok {c} {n} {core.zlist(hit)}')
     files = [('c12_randrange', HEADER + 'Eval vm_compute in forallb (fun b : bool => b) [\n' + ';\n'.join(rows) + '].\n')]
-    for k in range(0, len(cases), 3000):
-        files.append((f'c12_cases_{k // 3000}', HEADER + 'Definition cases : list (nat * bool) := [\n' + ';\n'.join(cases[k:k + 3000]) +
+    for k in range(0, len(cases), 1000):
+        files.append((f'c12_cases_{k // 1000}', HEADER + 'Definition cases : list (Z * bool) := [\n' + ';\n'.join(cases[k:k + 1000]) +
                       '].\nEval vm_compute in map fst (filter (fun c => negb (snd c)) cases).\n'))
     res = ctx.coq_eval_many(files)
     for name, (rc, out) in sorted(res.items()):
